@@ -56,7 +56,8 @@ Print Assumptions C15_table_unity_sound.
 
 (* THE refinement: the model of TypeBlocks.ufunc_axis_skipna driven by the regenerated table computes, for every
    function of the property, both axes, skipna on/off, every ddof, every number of rows and EVERY block layout
-   inside the guard, exactly the per-column / per-row specification of the flattened columns. *)
+   inside the guard (at least one column; the size_one_unity shortcut of axis 0 not taken), exactly the
+   per-column / per-row specification of the flattened columns. *)
 Theorem C15_refinement : forall f axis skipna ddof r bs,
   wf_frame r bs = true -> (axis = 0 \/ axis = 1) ->
   dom c15_table f axis skipna r bs = true ->
